@@ -55,6 +55,9 @@ class ValueIteration(Plans):
             action_values,
             np.max(action_values, axis=-1, keepdims=True),
         )
+        # states with undefined values tie all listed actions; never put mass on unavailable ones
+        has_actions = ~mdp.dead_end_state_vec
+        policy_matrix[has_actions] &= mdp.action_matrix[has_actions].astype(bool)
         policy_matrix = policy_matrix/policy_matrix.sum(-1, keepdims=True)
         single_action_states = mdp.action_matrix.sum(-1) == 1
         policy_matrix[single_action_states] = mdp.action_matrix[single_action_states]
